@@ -2893,6 +2893,16 @@ def _fill_statements_not_reading(name: str, matches: Sequence) -> list:
     return list(itertools.takewhile(lambda m: _name_mentions(m.root, name) == 1, matches))
 
 
+def _item_assignments_in_display_order(matches: Sequence) -> list:
+    """The leading `x[key] = value` statements that evaluate like the display item `key: value`.
+    The assignment evaluates the value first and the key second, the display the other way around,
+    which can only be told apart if both have an effect."""
+    return list(
+        itertools.takewhile(
+            lambda m: not (core.has_side_effect(m.key) and core.has_side_effect(m.value)), matches
+    ))
+
+
 @processing.fix
 def replace_dict_assign_with_dict_literal(source: str) -> str:
     root = core.parse(source)
@@ -2915,6 +2925,7 @@ def replace_dict_assign_with_dict_literal(source: str) -> str:
         core.walk_sequence(root, *template, expand_last=True)
     ):
         matches = _fill_statements_not_reading(first.target.id, matches)
+        matches = _item_assignments_in_display_order(matches)
         if not matches:
             continue
 
@@ -2988,6 +2999,7 @@ def replace_dictcomp_assign_with_dict_literal(source: str) -> str:
         core.walk_sequence(root, *template, expand_last=True)
     ):
         matches = _fill_statements_not_reading(first.target.id, matches)
+        matches = _item_assignments_in_display_order(matches)
         if not matches:
             continue
 
